@@ -58,11 +58,15 @@ impl SubCheck for ModuleLevel {
 	}
 	fn strategy(&self, tier: Tier) -> BoxedStrategy<ModCase> {
 		let max = tier.pick(14usize, 28);
+		// instance picks lean towards the newest instance, so that short stories about one subscription are common
+		let inst = || prop_oneof![2 => Just(u16::MAX), 1 => any::<u16>()];
 		let step = prop_oneof![
 			3 => any::<bool>().prop_map(|b| M::Subscribe { b }),
-			8 => (any::<u16>(), crate::props::subs::arb_cmd()).prop_map(|(inst, cmd)| M::Act { inst, cmd }),
-			3 => any::<u16>().prop_map(|inst| M::CloseConn { inst }),
-			4 => (any::<u16>(), proptest::bool::weighted(0.1)).prop_map(|(inst, other_family)| M::Unsub { inst, other_family }),
+			3 => Just(M::SubscribeRaw),
+			3 => inst().prop_map(|inst| M::AbandonCall { inst }),
+			8 => (inst(), crate::props::subs::arb_cmd()).prop_map(|(inst, cmd)| M::Act { inst, cmd }),
+			3 => inst().prop_map(|inst| M::CloseConn { inst }),
+			4 => (inst(), proptest::bool::weighted(0.1)).prop_map(|(inst, other_family)| M::Unsub { inst, other_family }),
 			1 => Just(M::UnsubStale),
 		];
 		proptest::collection::vec(step, 1..max)
@@ -195,7 +199,7 @@ impl SubCheck for ModuleLevel {
 						// of a closed connection beyond the receiver: once the handler let go, the entry must be gone)
 						let want = target.is_some_and(|i| {
 							let t = &insts[i];
-							t.b == fam_b && t.accepted && !t.unsubscribed && t.sinks_live > 0 && !t.returned
+							(t.raw || t.b == fam_b) && t.accepted && !t.unsubscribed && t.sinks_live > 0 && !t.returned
 						});
 						if got != Some(want) {
 							let t = target.map(|i| (insts[i].accepted, insts[i].unsubscribed, insts[i].sinks_live, insts[i].returned, insts[i].conn_open));
